@@ -9,7 +9,9 @@ import (
 	"github.com/btcsuite/btcd/blockchain"
 	"github.com/btcsuite/btcd/btcutil/v2"
 	"github.com/btcsuite/btcd/chainhash/v2"
+	"github.com/btcsuite/btcd/txscript/v2"
 	"github.com/btcsuite/btcd/wire/v2"
+	"verifharness/core"
 )
 
 type P struct{}
@@ -353,4 +355,25 @@ func execCache(ops []string) string {
 		out = append(out, fmt.Sprintf("%s;c=%s;d=%s;l=%d", res, conv(c.Dump(), true), conv(rows, false), l))
 	}
 	return strings.Join(out, "|")
+}
+
+// ---------------------------------------------------------------- facts (T2)
+
+func (P) Facts() []core.Fact {
+	fl := blockchain.VerifC03Flags()
+	return []core.Fact{
+		{Name: "tfCoinBase", Value: int64(fl[0])},
+		{Name: "tfSpent", Value: int64(fl[1])},
+		{Name: "tfModified", Value: int64(fl[2])},
+		{Name: "tfFresh", Value: int64(fl[3])},
+		{Name: "maxScriptSize", Value: int64(txscript.MaxScriptSize)},
+		{Name: "opReturn", Value: int64(txscript.OP_RETURN)},
+		{Name: "opData75", Value: int64(txscript.OP_DATA_75)},
+		{Name: "opPushData1", Value: int64(txscript.OP_PUSHDATA1)},
+		{Name: "opPushData2", Value: int64(txscript.OP_PUSHDATA2)},
+		{Name: "opPushData4", Value: int64(txscript.OP_PUSHDATA4)},
+		{Name: "flushRequired", Value: int64(blockchain.FlushRequired)},
+		{Name: "flushPeriodic", Value: int64(blockchain.FlushPeriodic)},
+		{Name: "flushIfNeeded", Value: int64(blockchain.FlushIfNeeded)},
+	}
 }
